@@ -25,6 +25,7 @@ DEPOT = 0
 
 class A(Adapter):
     name = "MultiCVRP"
+    run_scale = 1
     mask_mode = "per_agent"
     noop = 0
     has_reaction = True
